@@ -30,8 +30,17 @@ def pathsL : List Dec → List (Leaf × List Step)
   | t :: ts => paths t ++ pathsL ts
 end
 
-/-- the only change each decorator makes: tags `(t ∪ add) \ discard` (`None` when that is empty), a missing
-timestamp filled with the current time, the route code prefixed -/
+/-- the only change each decorator makes: tags `(t ∪ add) \ discard`, a missing timestamp filled with the current time, the
+route code prefixed.
+
+**Interpretation, pinned by the suite** (`TestStreamTagger.test_discarding`; audit/C11 v2 read the prose the other way, the
+code stays): an EMPTY resulting tag set is forwarded as `None` - `StreamTagger.status` hands on `test_tags or None` -, also
+when the event supplied an empty set and the tagger has nothing to add or discard, and when every supplied tag is
+discarded.  Downstream `None` means "this event says nothing about tags", not "no tags now": a consumer behind a tagger
+(`_StreamToTestRecord._update_case`: `if test_tags is not None`) KEEPS THE PREVIOUS TAGS of the test in that case, where it
+would have recorded the empty set had the event reached it directly.  So "altering only the field they own: tags added and
+discarded" holds up to this identification of the empty set with `None`, and a tagger with nothing to do is the identity
+on every event except those whose tags are the empty set. -/
 def applyStep (e : Event) : Step → Event
   | .tag add discard =>
     let s := norm (((e.tags.getD []) ++ add).filter fun x => !discard.contains x)
